@@ -14,6 +14,7 @@ TECHNIQUE = (
     "generated legal text x cleaning step lists, compared citation-by-citation with the run on the cleaned plain text; "
     "every reference citation checked for a founding full citation, a valid name and valid offsets"
 )
+TECHNIQUE += "; " + 'a quarter of the documents again under python -O'
 RULE = (
     "documents = complete product of slots (wrapper, case-name decoration, citation decoration, two later-mention slots, "
     "closing) x 3 step lists x {AC, HS in thorough}; distinct = distinct (markup, steps); non-trivial = markup-mode run "
